@@ -1,0 +1,11 @@
+//go:build verif
+
+// Verification contracts (property C08, addition; comment-only, read by /verif/govc).
+// The rollback walks copiedObjects: everything uploaded for ANY partition must still be on that list when a later
+// partition fails. Inside the partition / segment loops the list may only grow.
+
+package storage
+
+//@ func RecoverTopicToTimestamp
+//@   append_only [C08.rollback_list_only_grows] copiedObjects
+//@   static_only C08
